@@ -64,11 +64,12 @@ def sh(cmd, cwd=None, env=None, timeout=600, check=False, stdin=None):
 # --------------------------------------------------------------------------- Coq (L1)
 
 def coq_sources():
+    """the development = the files listed in coq/_CoqProject (files of builders still at work are not part of it)"""
     out = []
-    for root, _, files in os.walk(os.path.join(COQ, "theories")):
-        for f in files:
-            if f.endswith(".v"):
-                out.append(os.path.join(root, f))
+    for line in open(os.path.join(COQ, "_CoqProject")):
+        line = line.strip()
+        if line.endswith(".v") and not line.startswith("-"):
+            out.append(os.path.join(COQ, line))
     return sorted(out)
 
 
@@ -358,9 +359,16 @@ def load_known(pid):
     return out
 
 
+def out_dir(kind):
+    """evidence/ and replays/ belong to runs against /repo; rehearsals against a scratch tree write elsewhere"""
+    if REPO == "/repo":
+        return os.path.join(VERIF, kind)
+    return os.path.join(WORKROOT, "%s-%s" % (kind, hashlib.sha1(REPO.encode()).hexdigest()[:10]))
+
+
 def write_replay(ctx, obj, suffix=""):
-    os.makedirs(os.path.join(VERIF, "replays"), exist_ok=True)
-    path = os.path.join(VERIF, "replays", "%s-%d%s.json" % (ctx.pid, ctx.seed, suffix))
+    os.makedirs(out_dir("replays"), exist_ok=True)
+    path = os.path.join(out_dir("replays"), "%s-%d%s.json" % (ctx.pid, ctx.seed, suffix))
     with open(path, "w") as f:
         json.dump(obj, f, indent=1)
     return path
@@ -404,8 +412,8 @@ def write_evidence(ctx, proof, coverage_extra, assumptions, samples):
         ev["known_findings"] = ctx.known
     if ctx.notes:
         ev["notes"] = ctx.notes
-    os.makedirs(os.path.join(VERIF, "evidence"), exist_ok=True)
-    with open(os.path.join(VERIF, "evidence", ctx.pid + ".json"), "w") as f:
+    os.makedirs(out_dir("evidence"), exist_ok=True)
+    with open(os.path.join(out_dir("evidence"), ctx.pid + ".json"), "w") as f:
         json.dump(ev, f, indent=1)
 
 
